@@ -9,7 +9,8 @@ From Coq Require Import ZArith List Bool Arith Lia Permutation.
 From SP Require Import Model.Num Model.Arrow Model.Bounds Model.PointKernels Model.Intersect
      Model.Rtree Model.Cx Spec.Boxes Spec.IntersectSpec Spec.CxSpec
      Spec.BoundsSpec
-     Proofs.CxLists Proofs.CxProofs Proofs.CxKinds Proofs.CxBounds Proofs.CxExtent.
+     Proofs.CxLists Proofs.CxProofs Proofs.CxKinds Proofs.CxBounds Proofs.CxExtent
+     Proofs.CxRtreeBridge.
 Import ListNotations.
 Local Open Scope nat_scope.
 
@@ -213,6 +214,79 @@ Theorem C04_cx : forall A g (rows : list A) keys ps xs ys ex0 ey0 ex1 ey1,
 Proof. exact cx_headline. Qed.
 Print Assumptions C04_cx.
 
+(* ---- closed through the R-tree model, data without an extent included ---- *)
+
+(* [build_sindex (new_obj g) keys ps] holds the tree of Model/Rtree.v built over the
+   array's own bounds rows (HilbertRtree(self.bounds)), for any key permutation and any page
+   size.  The theorems above ask for data with an extent; the ones below do not. *)
+
+(* a modelled array has a finite extent, or none: then every bounds row is NaN
+   (total_bounds is the NaN-ignoring union of the rows, via C03_total_bounds_box) *)
+Theorem C04_extent_cases : forall g, g_modelled g -> g_even_outer g ->
+  (exists ex0 ey0 ex1 ey1 : Z, g_total_bounds g = (Some ex0, Some ey0, Some ex1, Some ey1)) \/
+  (g_total_bounds g = nanbox /\ forallb bbox_isnan (g_bounds g) = true).
+Proof. exact extent_cases. Qed.
+Print Assumptions C04_extent_cases.
+
+(* for EVERY key, the box _get_bounds fills from the tree's root box is the box it fills
+   from total_bounds (extent or not) *)
+Theorem C04_box_from_root : forall g keys ps xs ys,
+  g_modelled g -> g_even_outer g -> Permutation keys (seq 0 (g_len g)) ->
+  get_bounds (build_sindex (new_obj g) keys ps) xs ys = get_bounds (new_obj g) xs ys.
+Proof. exact get_bounds_same. Qed.
+Print Assumptions C04_box_from_root.
+
+(* data without extent, a key with an omitted end: nothing is selected on both paths *)
+Theorem C04_no_extent_open_end : forall g keys ps xs ys,
+  g_modelled g -> g_even_outer g -> Permutation keys (seq 0 (g_len g)) ->
+  key_has_step xs = false -> key_has_step ys = false ->
+  g_total_bounds g = nanbox -> open_end xs ys = true ->
+  cx_positions (build_sindex (new_obj g) keys ps) xs ys = inr [] /\
+  cx_positions (new_obj g) xs ys = inr [].
+Proof. exact cx_noextent_open. Qed.
+Print Assumptions C04_no_extent_open_end.
+
+(* ... and nothing is the specified answer: such data intersects no box, and the tree built
+   over it answers nothing to every finite query, whatever keys and page size *)
+Theorem C04_no_extent_nothing : forall g,
+  g_modelled g -> g_even_outer g -> g_total_bounds g = nanbox ->
+  (forall x0 y0 x1 y1, (x0 <= x1)%Z -> (y0 <= y1)%Z -> cx_spec g (x0, y0, x1, y1) = []) /\
+  (forall keys ps q, Permutation keys (seq 0 (g_len g)) -> length q = 4 ->
+     covers_overlaps (sindex_build g keys ps) q = ([], []) /\
+     intersects (sindex_build g keys ps) q = []).
+Proof. exact no_extent_nothing. Qed.
+Print Assumptions C04_no_extent_nothing.
+
+(* C04 in one piece, without "the data has an extent": [cx_box g xs ys] is the box the key
+   denotes (omitted ends = the data extent; on data without extent only four explicit ends
+   denote a box), [cx_answer] the increasing positions of the rows intersecting it (none
+   when there is no box).  For every modelled array, every key permutation, every page size,
+   every step-free key whose box -- if any -- has positive width and height: the box taken
+   from the tree's root is the box taken from total_bounds, and .cx through the R-tree =
+   .cx without index = the specified rows. *)
+Theorem C04_cx_rtree_closed : forall g keys ps xs ys,
+  g_modelled g -> g_even_outer g ->
+  Permutation keys (seq 0 (g_len g)) ->
+  key_has_step xs = false -> key_has_step ys = false ->
+  (forall b, cx_box g xs ys = Some b -> positive_box b) ->
+  get_bounds (build_sindex (new_obj g) keys ps) xs ys = get_bounds (new_obj g) xs ys /\
+  cx_positions (build_sindex (new_obj g) keys ps) xs ys = inr (cx_answer g xs ys) /\
+  cx_positions (new_obj g) xs ys = inr (cx_answer g xs ys).
+Proof. exact cx_rtree_closed. Qed.
+Print Assumptions C04_cx_rtree_closed.
+
+(* the same for the rows of a container aligned with the array (pandas oracle contract) *)
+Theorem C04_cx_rows_rtree_closed : forall A g (rows : list A) keys ps xs ys,
+  g_modelled g -> g_even_outer g ->
+  length rows = g_len g ->
+  Permutation keys (seq 0 (g_len g)) ->
+  key_has_step xs = false -> key_has_step ys = false ->
+  (forall b, cx_box g xs ys = Some b -> positive_box b) ->
+  cx_rows (build_sindex (new_obj g) keys ps) rows xs ys = Some (rows_answer g xs ys rows) /\
+  cx_rows (new_obj g) rows xs ys = Some (rows_answer g xs ys rows).
+Proof. exact cx_rows_rtree_closed. Qed.
+Print Assumptions C04_cx_rows_rtree_closed.
+
 (* the index state: a second build_sindex keeps the first index; slicing /
    taking / copying yields an object without index *)
 Theorem C04_second_build_keeps_first : forall o keys ps keys' ps',
@@ -291,3 +365,43 @@ Example ex_mpoly_cx :
   cx_case (ex_mpoly, None, ks) = [inr []; inr [0]; inr [0]; inr [0]] /\
   cx_case (ex_mpoly, Some ([0; 1], 1), ks) = [inr []; inr [0]; inr [0]; inr [0]].
 Proof. vm_compute. split; reflexivity. Qed.
+
+(* ---- non-vacuity of the closed statement ---- *)
+
+(* data with an extent: the hypotheses of C04_cx_rtree_closed hold for ex_lines with the
+   index of ex_cx_index (keys [3;0;2;1], page size 1) and a key with two omitted ends;
+   the answer is computed through the tree *)
+Example ex_closed_extent :
+  let xs := KSlice (Some 5%Z) None None in let ys := KSlice None (Some 4%Z) None in
+  cx_box ex_lines xs ys = Some (5, 0, 8, 4)%Z /\
+  positive_box (5, 0, 8, 4)%Z /\
+  Permutation [3; 0; 2; 1] (seq 0 (g_len ex_lines)) /\
+  cx_answer ex_lines xs ys = [3] /\
+  cx_positions (build_sindex (new_obj ex_lines) [3; 0; 2; 1] 1) xs ys = inr [3].
+Proof.
+  cbv zeta. split; [vm_compute; reflexivity|]. split; [cbn; lia|]. split; [|split; vm_compute; reflexivity].
+  cbn. apply perm_trans with (3 :: [0; 1; 2]).
+  - apply perm_skip, perm_skip. apply perm_swap.
+  - change (Permutation ([3] ++ [0; 1; 2]) ([0; 1; 2] ++ [3])). apply Permutation_app_comm.
+Qed.
+
+(* data without extent: three lines, one missing and two empty; tree with page size 2 *)
+Definition ex_noextent : garr :=
+  GLine (Build_listarr 0 3 (Some [true; false; true]) [[0; 0; 0; 0]] []).
+
+Example ex_noextent_modelled :
+  g_modelled ex_noextent /\ g_even_outer ex_noextent /\ g_total_bounds ex_noextent = nanbox /\
+  g_bounds ex_noextent = [nanbox; nanbox; nanbox] /\
+  t_tree (sindex_build ex_noextent [2; 0; 1] 2) = repeat [None; None; None; None] 3.
+Proof.
+  split; [|repeat split; reflexivity]. split; [reflexivity|]. eexists. reflexivity.
+Qed.
+
+Example ex_noextent_cx :
+  let ks := [(KSlice None None None, KSlice None None None);
+             (KSlice (Some 0) None None, KSlice (Some 0) (Some 3) None);
+             (KSlice (Some 0) (Some 3) None, KSlice (Some 0) (Some 3) None)]%Z in
+  map (fun k => cx_box ex_noextent (fst k) (snd k)) ks = [None; None; Some (0, 0, 3, 3)%Z] /\
+  cx_case (ex_noextent, None, ks) = [inr []; inr []; inr []] /\
+  cx_case (ex_noextent, Some ([2; 0; 1], 2), ks) = [inr []; inr []; inr []].
+Proof. vm_compute. repeat split; reflexivity. Qed.
